@@ -69,6 +69,7 @@ type LabCase struct {
 	Sort      bool
 	SkipNodes map[string]string // test -> wrapper (applied in the judged run only)
 	SkipAt    map[string]int
+	SkipExec  map[string]int
 	SkipAfter map[string]bool // test -> its skip wrapper is called after its sub-tests were started
 	Flags     []string        // extra runner flags of the judged process (-test.cpu=1,2 / -test.shuffle=on / -test.parallel=1)
 	Classes   vkit.Classes
@@ -125,7 +126,7 @@ func (l *Lab) value(r *rand.Rand, api, test string, idx int, hostile bool) strin
 // Gen draws a case for the root package of the default shape.
 func (l *Lab) Gen(r *rand.Rand, o LabOpts) *LabCase {
 	lc := &LabCase{Scenario: &Scenario{Nodes: map[string]*Node{}, Roots: l.Roots, CleanOpts: true}, Count: 1,
-		SkipNodes: map[string]string{}, SkipAt: map[string]int{}, Classes: vkit.Classes{}}
+		SkipNodes: map[string]string{}, SkipAt: map[string]int{}, SkipExec: map[string]int{}, Classes: vkit.Classes{}}
 	var tops []string
 	for _, pk := range l.P.Shape.Pkgs {
 		if pk.Dir != l.PkgDir {
@@ -222,6 +223,7 @@ func (l *Lab) Gen(r *rand.Rand, o LabOpts) *LabCase {
 			lc.SkipNodes[n] = w
 			if r.IntN(3) == 0 {
 				lc.SkipAt[n] = r.IntN(len(lc.Scenario.Nodes[n].Calls) + 1)
+
 			}
 			if w == "plain" {
 				lc.Classes["plain-testing-skip"] = true
@@ -292,6 +294,19 @@ func (l *Lab) Gen(r *rand.Rand, o LabOpts) *LabCase {
 		lc.Count = []int{1, 1, 2, 3, 5}[r.IntN(5)]
 		if lc.Count > 1 {
 			lc.Classes["count>1"] = true
+			// a snaps skip placed after some calls may happen in one execution only: the other
+			// executions run to the end and address every entry
+			ks := make([]string, 0, len(lc.SkipAt))
+			for n := range lc.SkipAt {
+				ks = append(ks, n)
+			}
+			sort.Strings(ks)
+			for _, n := range ks {
+				if lc.SkipNodes[n] != "plain" && lc.SkipAt[n] > 0 && r.IntN(2) == 0 {
+					lc.SkipExec[n] = 1 + r.IntN(lc.Count)
+					lc.Classes["skip-in-one-execution-only"] = true
+				}
+			}
 		}
 	}
 	if o.Counts {
@@ -364,6 +379,7 @@ func (lc *LabCase) withSkips() *Scenario {
 		if w, ok := lc.SkipNodes[k]; ok {
 			c.Skip = w
 			c.SkipAt = lc.SkipAt[k]
+			c.SkipExec = lc.SkipExec[k]
 			c.SkipAfterSubs = lc.SkipAfter[k]
 		}
 		if lc.MutVal[k] != nil || lc.MutUpd[k] != nil {
